@@ -24,8 +24,8 @@ def serverBase (env : Env) (rnd : Rnd) (up : Bool) (s : ServerStream) (p : Packe
 theorem server_registered_conn (env : Env) (now : Time) (rnd : Rnd) (up : Bool) (s : ServerStream) (p : Packet) (addr : Addr)
     (hnew : clientLookup (addr, p.sourcePort, p.sourceType) s.clients = none) (c' : Conn)
     (hreg : clientLookup (addr, p.sourcePort, p.sourceType) (s.processConnect env now rnd up p addr).s.clients = some c') :
-    c' = (serverBase env rnd up s p addr).serve now ∨
-    ∃ pid cid sk, c' = ((serverBase env rnd up s p addr).login pid cid sk).serve now := by
+    (s.key = none ∧ c' = (serverBase env rnd up s p addr).serve now) ∨
+    ∃ pid cid sk, s.key ≠ none ∧ c' = ((serverBase env rnd up s p addr).login pid cid sk).serve now := by
   unfold ServerStream.processConnect at hreg
   simp only [] at hreg
   by_cases h1 : p.signature ≠ env.packetSig (select env.cfg.sel p.version) p [] (env.connSig (select env.cfg.sel p.version) addr)
@@ -42,7 +42,7 @@ theorem server_registered_conn (env : Env) (now : Time) (rnd : Rnd) (up : Bool) 
         cases hk : s.key with
         | none =>
           simp only [ServerStream.loginStep, hk] at hreg
-          rw [clientLookup_set_same] at hreg; cases hreg; exact Or.inl rfl
+          rw [clientLookup_set_same] at hreg; cases hreg; exact Or.inl ⟨rfl, rfl⟩
         | some key =>
           simp only [ServerStream.loginStep, hk] at hreg
           cases hl : env.loginRequest p.payload key now with
@@ -52,7 +52,7 @@ theorem server_registered_conn (env : Env) (now : Time) (rnd : Rnd) (up : Bool) 
           | ok v =>
             obtain ⟨pid, cid, sk, resp⟩ := v
             simp only [hl] at hreg
-            rw [clientLookup_set_same] at hreg; cases hreg; exact Or.inr ⟨pid, cid, sk, rfl⟩
+            rw [clientLookup_set_same] at hreg; cases hreg; exact Or.inr ⟨pid, cid, sk, by simp, rfl⟩
 
 /-- the state of the fields `Established` speaks about, for a connection object fresh from `Conn.new` (possibly logged in)
     after `serve()` -/
@@ -109,13 +109,24 @@ theorem server_half_established (env : Env) (now : Time) (rnd : Rnd) (up : Bool)
     (hreg : clientLookup (addr, p.sourcePort, p.sourceType) (s.processConnect env now rnd up p addr).s.clients = some c')
     (sub : Nat) (hsub : sub ≤ env.s.maxSubstreamId) : ServerFresh c' sub up := by
   have hn : sub < env.s.maxSubstreamId + 1 := by omega
-  rcases server_registered_conn env now rnd up s p addr hnew c' hreg with h | ⟨pid, cid, sk, h⟩
+  rcases server_registered_conn env now rnd up s p addr hnew c' hreg with ⟨_, h⟩ | ⟨pid, cid, sk, _, h⟩
   · rw [h]
     exact serve_fresh _ now sub _ up hn rfl rfl rfl rfl rfl rfl
       ⟨List.replicate (env.s.maxSubstreamId + 1) [0x43, 0x44, 0x26, 0x4D, 0x4C], by simp, by simp [serverBase, Conn.new]⟩
   · rw [h]
     exact serve_fresh _ now sub _ up hn rfl rfl rfl rfl rfl rfl
       ⟨keyChain (env.s.maxSubstreamId + 1) sk, keyChain_length _ _, by simp [Conn.login, serverBase, Conn.new]⟩
+
+/-- the cipher setting of the registered connection is the transport's, and without a ticket key its substream keys are the
+    default ones -/
+theorem server_ciphers (env : Env) (now : Time) (rnd : Rnd) (up : Bool) (s : ServerStream) (p : Packet) (addr : Addr)
+    (hnew : clientLookup (addr, p.sourcePort, p.sourceType) s.clients = none) (c' : Conn)
+    (hreg : clientLookup (addr, p.sourcePort, p.sourceType) (s.processConnect env now rnd up p addr).s.clients = some c') :
+    c'.cipherOn = (env.s.transport == TRANSPORT_UDP) ∧
+    (s.key = none → c'.relCiphers = (List.replicate (env.s.maxSubstreamId + 1) [0x43, 0x44, 0x26, 0x4D, 0x4C]).map (fun k => { key := k })) := by
+  rcases server_registered_conn env now rnd up s p addr hnew c' hreg with ⟨_, h⟩ | ⟨pid, cid, sk, hk, h⟩
+  · rw [h]; exact ⟨rfl, fun _ => by simp [Conn.serve, serverBase, Conn.new]⟩
+  · rw [h]; exact ⟨rfl, fun hn => absurd hn hk⟩
 
 /-- the client's half, as far as `Established` needs it (what the client holds when its `handshake()` returns: the SYN took no
     id of substream 0, the CONNECT took id 1) -/
